@@ -38,6 +38,16 @@ let do_uri f =
     (match uri_of_line (List.nth f 3) with
      | None -> Printf.sprintf "%d?" (b2i (no_junk_after_bracketb t))
      | Some u -> Printf.sprintf "%d%d" (b2i (no_junk_after_bracketb t)) (b2i (check_C13 t u)))
+  (* chkfull: "<premise of the target><check_C13_port on the raw port text the implementation reported, 1 if none>" *)
+  | "chkfull" ->
+    let fs = uri_fields (List.nth f 3) in
+    let pr = b2i (no_junk_after_bracketb (a ())) in
+    (try
+      let o = List.assoc "o" fs in
+      if o = "N" then Printf.sprintf "%d1" pr else
+      let n = int_of_string (List.assoc "n" fs) and i = List.assoc "i" fs = "1" in
+      Printf.sprintf "%d%d" pr (b2i (check_C13_port (bytes_of_hex o) (z_of_int n) i))
+    with _ -> Printf.sprintf "%d?" pr)
   | "chkport" ->
     let fs = uri_fields (List.nth f 3) in
     (try
